@@ -584,7 +584,9 @@ def scenario(seed, i, count):
         return dict(driver='s_c04', variant='two_queries', seed=seed, index=i, case_id=c['id'], loads=c['loads'],
                     facts=S.jsonable(facts), facts_text=[T.term_to_source(f) for f in facts],
                     goals=S.jsonable(goals), goals_text=[goal_to_source(g) for g in goals], order=order)
-    if r < 0.3:
+    # evaluate_bounded's interpreter-wide recursion limit is explicitly outside the statement of C04:
+    # the threads_bounded variant is kept for replay but no longer generated
+    if False and r < 0.3:
         limit = rng.choice([60, 80, 100])
         n = rng.choice([40, 60])
         # B prepares its query first (so that only the ENGINE works while A's limit is in force) ...
